@@ -215,7 +215,7 @@ fn wire(args: &Args, rng: &mut SmallRng) -> i32 {
             }
         }
     }
-    let count = if args.thorough { 4000 } else { 500 };
+    let count = if args.thorough { 20000 } else { 500 };
     for i in 0..count {
         let p = rand_pred(rng, if i % 20 == 0 { 40 } else { 6 });
         push(&mut b, format!("pred/r/{i}"), super::guarded(|| pred_event(&p)));
@@ -297,7 +297,7 @@ fn rand_solution(rng: &mut SmallRng) -> Solution {
 /// Writes values.ndjson (abstract values, compressed words, for TLC) and real.json (addresses
 /// computed by the real crates, keyed by case id).
 fn addr_gen(args: &Args, rng: &mut SmallRng) -> i32 {
-    let count = if args.thorough { 3000 } else { 400 };
+    let count = if args.thorough { 16000 } else { 400 };
     let mut events = vec![];
     let mut real = serde_json::Map::new();
     let hex = |a: &ContentAddress| hex::encode(a.0);
@@ -473,7 +473,7 @@ fn rt<T: serde::Serialize + serde::de::DeserializeOwned + PartialEq>(v: &T) -> (
 
 fn serde_mode(args: &Args, rng: &mut SmallRng) -> i32 {
     let mut b = Batcher::new(&args.out, "codecs_serde", 3000);
-    let count = if args.thorough { 3000 } else { 400 };
+    let count = if args.thorough { 15000 } else { 400 };
     for i in 0..count {
         let s = rand_solution(rng);
         let p = rand_pred(rng, if i % 25 == 0 { 60 } else { 5 });
